@@ -27,7 +27,7 @@ _HEX = re.compile(r"0x[0-9A-Fa-f]+")
 
 
 def _pd_dtype(dt):
-    return {"int64": "int64", "float64": "float64", "str": str}[dt]
+    return {"int64": "int64", "float64": "float64", "str": str, "object": object}[dt]
 
 
 def _pl_dtype(dt):
@@ -156,7 +156,8 @@ def build_data(call):
     if form == "pd":
         import pandas as pd
 
-        df = pd.DataFrame({k: list(v) for k, v in d["cols"].items()})
+        obj_cols = set(d.get("object_cols") or [])  # columns built with dtype=object whatever they hold
+        df = pd.DataFrame({k: (pd.Series(list(v), dtype=object) if k in obj_cols else list(v)) for k, v in d["cols"].items()})
         if d.get("index") is not None:
             df.index = pd.Index(list(d["index"]))
         return df
